@@ -41,6 +41,7 @@ var (
 	maxUint32 = big.NewInt((1 << 32) - 1)
 
 	typeExprARMCRC32U32   = a.NewTypeExpr(0, t.IDBase, t.IDARMCRC32U32, nil, nil, nil)
+	typeExprIOWriter      = a.NewTypeExpr(0, t.IDBase, t.IDIOWriter, nil, nil, nil)
 	typeExprPixelSwizzler = a.NewTypeExpr(0, t.IDBase, t.IDPixelSwizzler, nil, nil, nil)
 )
 
